@@ -201,4 +201,24 @@ theorem compileDoc_buffered (env : CEnv) (e : SExpr) (inl : Bool) (hw : WF env e
     hoist_single_act _ _ _ _ _
   simp [compileDoc, hn, hc, hh, parseBody_print, bind, Except.bind, pure, Except.pure]
 
+/-! ## the unescaped form `!= e` -/
+
+theorem compileBuffered_scalar_raw (env : CEnv) (e : SExpr) (hw : WF env e) (ht : TopEsc e) (hd : e.depth < 50000) :
+    compileBuffered env e.toExpr false = .ok [.act false false (.print (tr e) false)] := by
+  have hc : compileExpr env e.toExpr = .ok (some (tr e)) :=
+    compile_scalar env e hw exprFuel (by simp only [exprFuel]; omega)
+  simp [compileBuffered, wrapKind_topEsc e ht, hc, bind, Except.bind, pure, Except.pure]
+
+theorem compileDoc_buffered_raw (env : CEnv) (e : SExpr) (inl : Bool) (hw : WF env e) (ht : TopEsc e) (hd : e.depth < 50000) :
+    compileDoc env [.codeBuf e.toExpr false inl] = .ok { main := [.print (tr e) false], defs := [] } := by
+  have hn : compileNodes env [.codeBuf e.toExpr false inl] = .ok [.act false false (.print (tr e) false)] := by
+    show compileNodesF (99999 + 1) env _ = _
+    rw [compileNodesF_single, show (99999 : Nat) = 99998 + 1 from rfl, compileNodeF_codeBuf,
+      compileBuffered_scalar_raw env e hw ht hd]
+    rfl
+  have hc : collectMixinDefs [Node.codeBuf e.toExpr false inl] = [] := collect_codeBuf _ _ _ _
+  have hh : hoistBlocks [Frag.act false false (.print (tr e) false)] 0 = ([Frag.act false false (.print (tr e) false)], [], 0) :=
+    hoist_single_act _ _ _ _ _
+  simp [compileDoc, hn, hc, hh, parseBody_print, bind, Except.bind, pure, Except.pure]
+
 end Pug.Props.C01S
